@@ -7,7 +7,7 @@ import json
 
 from ..common import coq_eval, harness
 
-HEADER = ("From Coq Require Import List NArith Bool.\nFrom PV Require Import Lib.ListX Model.WindowFns Model.WinReorder Gen.GenWindow.\n"
+HEADER = ("From Coq Require Import List NArith Bool.\nFrom PV Require Import Lib.ListX Model.WindowFns Model.WinReorder.\n"
           "Import ListNotations.\nLocal Open Scope N_scope.\n")
 PRE = "verif:preprocess "
 CX_CODE = {"Plain": 10, "NonGroup": 11, "Windowed": 12, "Aggregation": 13}
@@ -160,7 +160,7 @@ def run_reorder(ck, srcs, one_target_srcs=(), targets=("sql.sqlite", "sql.generi
 
 # ------------------------------------------------------------------ split_off_back: the complexity half, for windowed computes
 SOB = "verif:split_off_back "
-HEADER_SOB = ("From Coq Require Import List NArith Bool.\nFrom PV Require Import Lib.ListX Model.WindowFns Model.SplitBase Model.WinAtomic Gen.GenSplit Gen.GenWindow.\n"
+HEADER_SOB = ("From Coq Require Import List NArith Bool.\nFrom PV Require Import Lib.ListX Model.WindowFns Model.SplitBase Model.WinAtomic Gen.GenSplit.\n"
               "Import ListNotations.\nLocal Open Scope N_scope.\n")
 KIND_CODE = {"From": 0, "Join": 1, "Filter": 2, "Aggregate": 3, "Sort": 6, "Select": 9, "Loop": 10, "Distinct": 11, "DistinctOn": 12,
              "Union": 13, "Except": 14, "Intersect": 15}
@@ -273,11 +273,18 @@ def run_split(ck, srcs, targets=("sql.sqlite",), events=None):
         key = (tuple(coq_item(i) for i in items), tuple(e["in"]["output"]))
         cases.setdefault(key, []).append((s, t, items, kept_impl))
     keys = sorted(cases)
-    exprs = ["(kept code_req_tables (wstate0 code_req_tables [%s]) (map titem_of (rev [%s])))" % ("; ".join(str(c) for c in out), "; ".join(its)) for its, out in keys]
+    TB = "(model_req_tables split_required records)"
+    exprs = ["(kept %s (wstate0 %s [%s]) (map titem_of (rev [%s])))" % (TB, TB, "; ".join(str(c) for c in out), "; ".join(its)) for its, out in keys]
     try:
-        mv = coq_eval(HEADER_SOB, exprs)
-    except RuntimeError:
-        mv = coq_eval(HEADER_SOB, exprs, shards=4)
+        try:
+            mv = coq_eval(HEADER_SOB, exprs)
+        except RuntimeError:
+            mv = coq_eval(HEADER_SOB, exprs, shards=4)
+    except RuntimeError as ex:
+        # Gen/GenSplit.v is a stub (its translator failed closed): the walk has no is_split_required to run with
+        ck.violation("the split_off_back correspondence could not be evaluated (is_split_required was not translated): %s" % str(ex)[-300:],
+                     {"kind": "model-unavailable", "hook": "verif:split_off_back"}, no_input=True)
+        return
     other = []
     for key, kept_model in zip(keys, mv):
         for s, t, items, kept_impl in cases[key]:
